@@ -46,7 +46,7 @@ package node
 //@   requires u(ctx.Tx.GasPrice) < 2^128 && ctx.Tx.Gas < 2^63
 //@   requires native_tx(ctx) ==> fee_of(ctx.Tx) <= u(ctx.Sender.Balance)
 //@   modifies everything
-//@   preserves Trx.*, Account.Code, govGasPrice, govMinTrxGas, TrxContext.Tx, TrxContext.Sender, TrxContext.Receiver, TrxContext.Exec, TrxContext.ChainID, TrxContext.AcctHandler, TrxContext.GovHandler
+//@   preserves feeSumObj, u(feeSumObj), govPriceObj, u(govPriceObj), RigoApp.*, BlockContext.*, Config.*, GovParams.gasPrice, Trx.*, Account.Code, govGasPrice, govMinTrxGas, TrxContext.Tx, TrxContext.Sender, TrxContext.Receiver, TrxContext.Exec, TrxContext.ChainID, TrxContext.AcctHandler, TrxContext.GovHandler
 //@   ensures result == nil                                                                                   [C05]
 //@   ensures old(native_tx(ctx)) ==> ctx.Sender.Nonce == old(ctx.Sender.Nonce) + 1 || old(ctx.Sender.Nonce) == 18446744073709551615   [C04]
 //@   ensures old(native_tx(ctx)) ==> u(ctx.Sender.Balance) == old(u(ctx.Sender.Balance)) - old(fee_of(ctx.Tx))       [C16]
@@ -61,7 +61,7 @@ package node
 //@   requires ctx.Sender.Nonce == ctx.Tx.Nonce                                                               [C04]
 //@   requires fee_of(ctx.Tx) + u(ctx.Tx.Amount) <= u(ctx.Sender.Balance) && u(ctx.Tx.GasPrice) < 2^128 && ctx.Tx.Gas < 2^63
 //@   modifies everything
-//@   preserves Trx.*, govGasPrice, govMinTrxGas, TrxContext.Tx, TrxContext.Sender, TrxContext.Exec
+//@   preserves feeSumObj, u(feeSumObj), govPriceObj, u(govPriceObj), RigoApp.*, BlockContext.*, Config.*, GovParams.gasPrice, Trx.*, govGasPrice, govMinTrxGas, TrxContext.Tx, TrxContext.Sender, TrxContext.Exec, TrxContext.GovHandler
 //@   ensures result == nil && old(native_tx(ctx)) ==> ctx.Sender.Nonce == old(ctx.Sender.Nonce) + 1 || old(ctx.Sender.Nonce) == 18446744073709551615   [C04]
 //@   ensures result == nil && ctx.Exec && !old(native_tx(ctx)) ==> ctx.Sender.Nonce == old(ctx.Sender.Nonce) + 1   [C04]
 //@   ensures result != nil ==> ctx.Sender.Nonce == old(ctx.Sender.Nonce)                                     [C04,C05]
@@ -74,7 +74,27 @@ package node
 //@   requires wf_ctx(ctx) && ctx.GasUsed == 0
 //@   assumes noalias(ctx)
 //@   modifies everything
-//@   preserves Trx.*, govGasPrice, govMinTrxGas, TrxContext.Tx, TrxContext.Sender, TrxContext.Exec
+//@   preserves feeSumObj, u(feeSumObj), govPriceObj, u(govPriceObj), RigoApp.*, BlockContext.*, Config.*, GovParams.gasPrice, Trx.*, govGasPrice, govMinTrxGas, TrxContext.Tx, TrxContext.Sender, TrxContext.Exec, TrxContext.GovHandler
 //@   ensures result == nil && (ctx.Exec || old(native_tx(ctx))) ==> old(ctx.Sender.Nonce) == ctx.Tx.Nonce && (ctx.Sender.Nonce == old(ctx.Sender.Nonce) + 1 || old(ctx.Sender.Nonce) == 18446744073709551615)   [C04]
 //@   ensures result != nil ==> ctx.Sender.Nonce == old(ctx.Sender.Nonce) && u(ctx.Sender.Balance) == old(u(ctx.Sender.Balance))   [C04,C05]
-//@   ensures result == nil ==> old(u(ctx.Tx.GasPrice) == govGasPrice[ctx.GovHandler] && fee_of(ctx.Tx) >= govMinTrxGas[ctx.GovHandler] * govGasPrice[ctx.GovHandler]) && ctx.GasUsed <= ctx.Tx.Gas   [C16]
+//@   ensures result == nil ==> old(u(ctx.Tx.GasPrice) == govGasPrice[ctx.GovHandler] && fee_of(ctx.Tx) >= govMinTrxGas[ctx.GovHandler] * govGasPrice[ctx.GovHandler]) && ctx.GasUsed <= ctx.Tx.Gas && ctx.Tx.Gas < 2^63   [C16]
+
+// the callback deliverTxSync hands to NewTrxContext: it fills in the handlers of the new context
+//@ func (ctrler *RigoApp) deliverTxSync__1(_txctx)
+//@   nopanic
+//@   requires _txctx != nil
+//@   assumes ctrler != nil && ctrler.nextBlockCtx != nil && ctrler.rootConfig != nil && ctrler.govCtrler != nil && ctrler.rootConfig.Config != nil
+//@   modifies _txctx.TxIdx, _txctx.TrxGovHandler, _txctx.TrxAcctHandler, _txctx.TrxStakeHandler, _txctx.TrxEVMHandler, _txctx.GovHandler, _txctx.AcctHandler, _txctx.StakeHandler, _txctx.ChainID, BlockContext.txsCnt
+//@   ensures result == nil && _txctx.TrxGovHandler != nil && _txctx.TrxAcctHandler != nil && _txctx.TrxStakeHandler != nil && _txctx.TrxEVMHandler != nil && _txctx.GovHandler != nil && _txctx.AcctHandler != nil   [C09]
+//@   ensures _txctx.ChainID == ctrler.rootConfig.ChainID && _txctx.GovHandler == ctrler.govCtrler               [C03,C16]
+
+//@ func (ctrler *RigoApp) deliverTxSync(req)
+//@   nopanic
+//@   objinv wf_app(ctrler)
+//@   assumes ctrler.govCtrler.GovParams.gasPrice != nil && govGasPrice[ctrler.govCtrler] == u(ctrler.govCtrler.GovParams.gasPrice) && govGasPrice[ctrler.govCtrler] < 2^128 && govPriceObj == ctrler.govCtrler.GovParams.gasPrice && govPriceObj != feeSumObj
+//@   assumes u(ctrler.nextBlockCtx.feeSum) < 2^200 && feeSumObj == ctrler.nextBlockCtx.feeSum
+//@   modifies everything
+//@   preserves RigoApp.*, BlockContext.feeSum, BlockContext.blockInfo, Config.*, govGasPrice, govMinTrxGas
+//@   ensures result.Code != 0 ==> u(ctrler.nextBlockCtx.feeSum) == old(u(ctrler.nextBlockCtx.feeSum))           [C05,C16]
+//@   ensures result.Code == 0 ==> u(ctrler.nextBlockCtx.feeSum) == old(u(ctrler.nextBlockCtx.feeSum)) + result.GasUsed * old(govGasPrice[ctrler.govCtrler])   [C16]
+//@   ensures result.Code == 0 ==> result.GasUsed <= result.GasWanted || result.GasWanted < 0                    [C16]
